@@ -212,6 +212,17 @@ namespace vf
         return b;
     }
 
+    // a second graph built from the *same* operator objects (an operator object may be handed to several graphs; whatever
+    // an operator needs to remember between updates belongs to the graph that runs it)
+    inline GraphBundle build_graph_sharing_operators(grid_t& grid, const GraphBundle& other)
+    {
+        GraphBundle b;
+        b.specs = other.specs;
+        b.ops = other.ops;
+        b.graph = std::make_unique<graph_t>(grid, fs::make_flow_operator_sequence<impl_t>(b.ops));
+        return b;
+    }
+
     // ------------------------------------------------------------------ arrays
     inline std::vector<std::size_t> grid_shape_vec(const GridSpec& g)
     {
@@ -234,6 +245,21 @@ namespace vf
         for (std::size_t i = 0; i < m.size(); ++i)
             a.flat(i) = m[i] != 0;
         return a;
+    }
+
+    // a shape that does not match the grid (one more row / node; for rasters sometimes the transposed shape, which has the
+    // right number of elements): setters documented to refuse it must leave the object as it was
+    template <class RNG>
+    inline std::vector<std::size_t> mismatched_shape(const GridSpec& g, RNG& rng)
+    {
+        auto sh = grid_shape_vec(g);
+        if (sh.size() == 2 && sh[0] != sh[1] && rng.chance(0.5))
+            std::swap(sh[0], sh[1]);
+        else if (rng.chance(0.5) && sh[0] > 1)
+            sh[0] -= 1;
+        else
+            sh[0] += 1;
+        return sh;
     }
 
     template <class A>
@@ -899,6 +925,33 @@ namespace vf
             in.custom_bl = true;
         }
         in.bl = eff;
+    }
+
+    // masks exist to hide cells without data: whatever value is stored under the mask must not matter. Overwrites the masked
+    // entries of an array that is about to be handed to the library; returns the number of entries written
+    inline double pick_nodata(Rng& rng)
+    {
+        return rng.pick(std::vector<double>{ -9999.0, -3.4e38, -1e300, 1e300, std::numeric_limits<double>::quiet_NaN(),
+                                             std::numeric_limits<double>::infinity(), -std::numeric_limits<double>::infinity(), 0.0 });
+    }
+
+    inline std::size_t write_nodata_under_mask(double nodata, const std::vector<std::uint8_t>& mask, arr_t& a)
+    {
+        std::size_t k = 0;
+        for (std::size_t i = 0; i < mask.size(); ++i)
+            if (mask[i])
+            {
+                a.flat(i) = nodata;
+                ++k;
+            }
+        return k;
+    }
+
+    inline std::size_t write_nodata_under_mask(Rng& rng, const std::vector<std::uint8_t>& mask, arr_t& a)
+    {
+        if (mask.empty())
+            return 0;
+        return write_nodata_under_mask(pick_nodata(rng), mask, a);
     }
 
     inline void apply_inputs(graph_t& graph, const GridSpec& g, const FlowInputs& in, Rng* shuffle_rng = nullptr)
